@@ -17,7 +17,8 @@ NAMES = ['x', 'y', 'z']
 
 
 def bounds(tier):
-    return dict(variables=3, functions=256, subsets=8, orders=6 if tier == 'thorough' else 3, sampled_5var=300 if tier == 'quick' else 5000 * DEEP)
+    return dict(variables=3, functions=256, subsets=8, orders=6 if tier == 'thorough' else 3, sampled_5var=300 if tier == 'quick' else 5000 * DEEP,
+                histories=120 if tier == 'quick' else 300 * DEEP, level_shift_histories=60 if tier == 'quick' else 300 * DEEP)
 
 
 def chunks(tier, seed):
@@ -30,11 +31,11 @@ def chunks(tier, seed):
         for warm in (0, 1):
             for part in range(2):
                 out.append(('case_all3', [dict(order=list(o), warm=warm, part=part, seed=seed)]))
-    nh = 120 if tier == 'quick' else 1500 * DEEP
+    nh = 120 if tier == 'quick' else 300 * DEEP
     for k in range(0, nh, 10):
         out.append(('case_history', [dict(seed=seed * 7907 + k + i, steps=25 + (k + i) % 40, mode='autoref' if (k + i) % 3 == 0 else 'bdd',
                                           names=hist.ALLNAMES[:5], order=None) for i in range(10)]))
-    ns = 60 if tier == 'quick' else 600 * DEEP
+    ns = 60 if tier == 'quick' else 300 * DEEP
     for k in range(0, ns, 10):
         out.append(('case_shift', [dict(seed=seed * 4409 + k + i, steps=40) for i in range(10)]))
     n5 = 300 if tier == 'quick' else 5000 * DEEP
